@@ -46,8 +46,8 @@ I32 = (-(2**31), 2**31 - 1)
 # ---------------------------------------------------------------------------
 # representable(kind, value): written from the statement, independent of the library
 # ---------------------------------------------------------------------------
-def _ok(expected, canonical=False, mask=(), alt32=False):
-    return {"status": "ok", "expected": expected, "canonical": canonical, "mask": sorted(mask), "alt32": alt32}
+def _ok(expected, canonical=False, mask=(), alt32=False, n_written=None):
+    return {"status": "ok", "expected": expected, "canonical": canonical, "mask": sorted(mask), "alt32": alt32, "n_written": n_written}
 
 
 def _bad(reason):
@@ -96,7 +96,7 @@ def judge_num(kind, path, val, n=N_GEOM):
             elif x == FLOAT_NDV:
                 mask.add(i)  # the single documented exception
         exp += [None] * (n - len(exp))
-        return _ok(exp, canonical, mask, alt32=(path == "concat"))
+        return _ok(exp, canonical, mask, alt32=(path == "concat"), n_written=len(flat))
     if kind in ("int", "ref"):
         exp, reason = [], None
         for x in flat:
@@ -117,7 +117,7 @@ def judge_num(kind, path, val, n=N_GEOM):
         if reason:
             return _bad(reason)
         exp += [INTEGER_NDV] * (n - len(exp))
-        return _ok(exp, canonical)
+        return _ok(exp, canonical, n_written=len(flat))
     if kind == "bool":
         exp = []
         for i, x in enumerate(flat):
@@ -135,7 +135,14 @@ def judge_num(kind, path, val, n=N_GEOM):
     raise ValueError(kind)
 
 
-def judge_text(val, n=N_GEOM):
+def judge_text(val, path="node", n=N_GEOM):
+    jd = _judge_text(val, n)
+    if path == "concat" and val["t"] in ("str", "bytes") and jd["status"] == "ok":
+        jd["canonical"] = False  # drillhole data are arrays along a depth table
+    return jd
+
+
+def _judge_text(val, n=N_GEOM):
     t = val["t"]
     if t == "py":
         return FREE if val["what"] == "strlist" else _bad("unsupported-type")
@@ -296,7 +303,7 @@ def judge(case, val):
     if fam == "num":
         return judge_num(kind, path, val)
     if fam == "text":
-        return judge_text(val)
+        return judge_text(val, path)
     if fam == "comment":
         return judge_comment(val)
     if fam == "blob":
@@ -379,8 +386,14 @@ def compare(case, jd, obs: Obs, stage):
             return default_clause, "missing", {"expected": exp}
         if len(got) != len(exp):
             return default_clause, "length", {"expected": exp, "observed": got}
+        n_written = jd.get("n_written")
         for i, (e, g) in enumerate(zip(exp, got)):
             if i in jd["mask"]:
+                continue
+            pad = n_written is not None and i >= n_written  # entry the library added to a short array
+            if pad and stage != "raw":
+                if (g is not None) if kind == "float" else (g != e):
+                    return "gap-uses-no-data-code", "padding", {"index": i, "observed": g, "expected": "NaN" if kind == "float" else e}
                 continue
             if kind == "float":
                 if stage == "raw":
@@ -412,6 +425,8 @@ def compare(case, jd, obs: Obs, stage):
     if fam == "text":
         if got is None:
             return default_clause, "missing", {"expected": exp}
+        if case["path"] == "concat" and len(exp) < N_GEOM and len(got) == N_GEOM:
+            got = got[: len(exp)]  # a short array is padded to the depth table; no text gap is defined
         if len(got) != len(exp):
             return default_clause, "length", {"expected": exp, "observed": got}
         for i, (e, g) in enumerate(zip(exp, got)):
@@ -645,14 +660,22 @@ class Exec:
         return {"comment": "UserComments", "blob": "f.dat"}.get(self.fam, "x")
 
     def fetch(self):
+        """The data entity (metadata: its owner) in the current workspace, or None.  A refused
+        creation can leave a half-registered name behind; looking it up must not stop the run."""
         owner = self.owner()
         if self.fam == "meta":
             return owner
-        if self.path == "concat":
-            return owner.get_data(self.dname())[0] if self.dname() in owner.get_data_list() else None
-        for child in owner.children:
-            if getattr(child, "name", None) == self.dname() and hasattr(child, "values"):
-                return child
+        try:
+            if self.path == "concat":
+                if self.dname() not in owner.get_data_list():
+                    return None
+                found = owner.get_data(self.dname())
+                return found[0] if found else None
+            for child in owner.children:
+                if getattr(child, "name", None) == self.dname() and hasattr(child, "values"):
+                    return child
+        except Exception:  # pylint: disable=broad-except
+            return None
         return None
 
     # -- the two write operations ---------------------------------------------------
@@ -747,6 +770,9 @@ class Exec:
         if refused_before and clause in ("read-back-equal", "stored-as-written", "gap-uses-no-data-code"):
             clause = "refused-write-keeps-stored"
             self.viol.append((clause, self.refusal_wit(), dict(detail, stage=stage, after=refused_before, kind=self.kind, path=self.path)))
+        elif vcls == "padding":
+            store = {"float": "float-store", "int": "int32-store", "ref": "int32-store"}.get(self.kind, self.kind)
+            self.viol.append((clause, f"{store}/{self.path}:padding", dict(detail, stage=stage, kind=self.kind)))
         else:
             self.viol.append((clause, self.wit(f"{stage}:{vcls}"), dict(detail, stage=stage)))
         return False
